@@ -1,3 +1,3 @@
 From Coq Require Import ExtrOcamlBasic.
-From PTK Require Import Lib.Sx Model.C08_TextObjects.
+From PTK Require Import Lib.Sx Model.C08_Session.
 Extraction "c08_model.ml" run_C08.
